@@ -1085,7 +1085,81 @@ def replay_options(case):
     return {"reproduced": bool(failed), "failed": failed, "detail": "; ".join(failed)[:500] or "ok"}
 
 
-REPLAYERS = {'options': replay_options, 'names': replay_names, 'setattr': replay_setattr, 'tables': replay_tables, 'threads': replay_threads, 'chunked': replay_chunked, 'sockread': replay_sockread, 'parseseq': replay_parseseq, 'roundtrip': replay_roundtrip, 'labelopt': replay_labelopt, 'crcseq': replay_crcseq, 'crc': replay_crc, 'construct': replay_construct, 'stream': replay_stream, 'socket': replay_stream, 'parse': replay_parse}
+def replay_definition(case):
+    from . import structs
+    tb = ol.tables()
+    ident = case['ident']
+    try:
+        ol.validate_shape(tb['payloads'][ident], ident)
+        k = structs.kind_of(ident)
+        st = dict(nsat=1, nsig=1, cellmask='ones', maskmode='value') if k == 'msm' else dict(harm=(1, 1, 1)) if k == 'harm' else \
+            dict(flags=15) if k == 'flags' else dict(mode=('uniform', 2))
+        ch = structs.chooser(st)
+        ol.walk(ident, lambda name, off, w, what: (lambda v: (bin(v[1]).count("1") if what == 'popcount' else v[1]) if isinstance(v, tuple) else v)(ch(name, w, what)), tb)
+        num = int(ident[:4])
+        if (ident in tb['msm']) != (1070 <= num <= 1229) and ident in tb['msm']:
+            return {"reproduced": True, "detail": "dispatch"}
+        if 'dispatched' in case.get('why', ''):
+            in_msm, in_igs = ident in tb['msm'], ident in tb['igs']
+            ok = (in_msm == (1070 <= num <= 1229)) and (in_igs == (num == 4076)) if (in_msm or in_igs) else not (1070 <= num <= 1229 or num == 4076)
+            return {"reproduced": not ok, "detail": case['why']}
+    except ol.BadDefinition as e:
+        return {"reproduced": True, "failed": [str(e)], "detail": f"definition of {ident} is malformed: {e}"}
+    return {"reproduced": False, "detail": "definition is well-formed"}
+
+
+def _layout_of(ident, st):
+    from . import structs
+    ch = structs.chooser(st)
+
+    def valueof(name, off, w, what):
+        v = ch(name, w, what)
+        if isinstance(v, tuple):
+            return bin(v[1]).count("1") if what == 'popcount' else v[1]
+        return v
+    return ol.walk(ident, valueof)
+
+
+def replay_length(case):
+    lay = _layout_of(case['ident'], case['struct'])
+    bad = lay.total != case['pinned_bits']
+    return {"reproduced": bad, "detail": f"{case['ident']}: definition occupies {lay.total} bits, pinned {case['pinned_bits']}" if bad else "ok"}
+
+
+def replay_siblings(case):
+    ids, rel = case['ids'], case['relation']
+    sig = lambda f: (f.key, f.w, f.typ, f.res)
+    failed = []
+    if rel == 'composite':
+        n = case.get('nsat', 1)
+        L = [_layout_of(i, dict(mode=('uniform', n))) for i in ids]
+        g = [[f for f in lay.fields if f.idx] for lay in L]
+        for s_ in range(1, n + 1):
+            per = [[sig(f) for f in gi if f.idx[0] == s_] for gi in g]
+            if per[0] != per[1] + per[2][1:] or per[2][0] != per[1][0]:
+                failed.append(f"satellite block {s_} of {ids[0]} != block of {ids[1]} + block of {ids[2]}")
+    elif rel == 'contains':
+        L = [_layout_of(i, dict(mode=('uniform', 1))) for i in ids]
+        gb, gs = [sig(f) for f in L[0].fields if f.idx], [sig(f) for f in L[1].fields if f.idx]
+        tb_, ts = [sig(f) for f in L[0].fields if not f.idx and f.key != "DF002"], [sig(f) for f in L[1].fields if not f.idx and f.key != "DF002"]
+        it, it2 = iter(gb), iter(tb_)
+        if not all(any(x == y for y in it) for x in gs) or not all(any(x == y for y in it2) for x in ts):
+            failed.append(f"{ids[0]} does not contain the fields of {ids[1]} in order")
+    else:
+        st = dict(nsat=2, nsig=2, cellmask='ones', maskmode='value', seed=1) if rel == 'parallel-msm' else dict(mode=('uniform', 2))
+        L = [_layout_of(i, st) for i in ids]
+        key = (lambda f: (f.w, f.typ, 0 if f.res in (0, 1) else f.res, len(f.idx))) if rel == 'parallel-msm' else (lambda f: (f.key, f.w, f.typ, f.res, len(f.idx)))
+
+        def tail(lay):
+            ks = [f.key for f in lay.fields]
+            i = ks.index("DF393") if rel == 'parallel-msm' and "DF393" in ks else 0
+            return [lay.fields[i].off if rel == 'parallel-msm' else 0] + [key(f) for f in lay.fields[i:]]
+        if tail(L[0]) != tail(L[1]):
+            failed.append(f"{ids[0]} and {ids[1]} are laid out differently")
+    return {"reproduced": bool(failed), "failed": failed, "detail": "; ".join(failed) or "ok"}
+
+
+REPLAYERS = {'definition': replay_definition, 'length': replay_length, 'siblings': replay_siblings, 'options': replay_options, 'names': replay_names, 'setattr': replay_setattr, 'tables': replay_tables, 'threads': replay_threads, 'chunked': replay_chunked, 'sockread': replay_sockread, 'parseseq': replay_parseseq, 'roundtrip': replay_roundtrip, 'labelopt': replay_labelopt, 'crcseq': replay_crcseq, 'crc': replay_crc, 'construct': replay_construct, 'stream': replay_stream, 'socket': replay_stream, 'parse': replay_parse}
 
 
 def replay(case):
